@@ -137,6 +137,10 @@ def curved_cases():
     out.append(('arc + two wires (triangle-like loop)', lambda: [A(6, 0, 180), W(3, E0, (0.0, 0.0, -1.0)), W(3, (0.0, 0.0, -1.0), E180)]))
     out.append(('open: arc + tail', lambda: [A(6, 0, 180), W(3, E180, (-2.0, 0.0, 0.5))]))
     out.append(('full circle', lambda: [A(12, 0, 360)]))
+    # a loop closed on itself that is not the first object with pulses (its own pulse numbers differ from the global ones)
+    out.append(('wire beside it + full circle', lambda: [W(5, (3.0, 0.0, -1.0), (3.0, 0.0, 1.0)), A(12, 0, 360)]))
+    out.append(('two coaxial full circles', lambda: [A(9, 0, 360), Arc(11, 2 * R, 0, 360, 0.002)]))
+    out.append(('full circle + spoke ending on it + wire beside', lambda: [W(4, (3.0, 0.0, 0.0), (3.0, 1.0, 1.0)), A(12, 0, 360), W(3, (0.0, 0.0, 0.0), E0)]))
     out.append(('quarter arcs x4', lambda: [A(3, 0, 90), A(3, 90, 180), A(4, 180, 270), A(3, 270, 360)]))
 
     def helix_loop():
